@@ -83,7 +83,9 @@ void InterrogateBuilder::
 read_command_file(istream &in) {
   string line;
   std::getline(in, line);
-  while (!in.fail() && !in.eof()) {
+  // Note that eof() may already be set after reading a last line that lacks a
+  // trailing newline; that line still has to be processed.
+  while (!in.fail()) {
     // Strip out the comment.
     size_t hash = line.find('#');
     if (hash != string::npos) {
